@@ -162,6 +162,10 @@ def freeze_rope(E, r):
 
 
 def install(E):
+    def _reset(E):
+        E.known_bytes = {}
+    E.hooks.setdefault('reset', []).append(_reset)
+
     def get_n(nbytes):
         def f(E, a, ctx):
             b = E.load(a[0])
@@ -169,10 +173,23 @@ def install(E):
                 raise Unsupported(f'get_u{nbytes*8} on {b!r}')
             if not E.decide(z3.UGE(b.len, BV(nbytes))):
                 raise Panic(f'Buf::get_u{nbytes * 8}: buffer too short')
-            if nbytes > 1:
-                v = z3.Concat(*[z3.Select(b.base, b.off + BV(i)) for i in range(nbytes)])
-            else:
-                v = z3.Select(b.base, b.off)
+            v = None
+            kb = getattr(E, 'known_bytes', None)
+            if kb and b.base.eq(WIRE):
+                # bytes the harness has fixed by assumption (a concretely laid out frame) are read as constants
+                o = z3.simplify(b.off)
+                if z3.is_bv_value(o):
+                    o = o.as_long()
+                    if all((o + i) in kb for i in range(nbytes)):
+                        x = 0
+                        for i in range(nbytes):
+                            x = (x << 8) | kb[o + i]
+                        v = z3.BitVecVal(x, 8 * nbytes)
+            if v is None:
+                if nbytes > 1:
+                    v = z3.Concat(*[z3.Select(b.base, b.off + BV(i)) for i in range(nbytes)])
+                else:
+                    v = z3.Select(b.base, b.off)
             E.store(a[0], Buf(b.base, b.off + BV(nbytes), b.len - BV(nbytes), b.cap - BV(nbytes) if b.cap is not None else None, b.tag))
             return v
         return f
